@@ -13,7 +13,7 @@ sys.path.insert(0, HERE)
 RELATED = {
  'C01': ['C03'], 'C02': ['C13', 'C15'], 'C03': ['C05', 'C09'], 'C04': ['C05', 'C10'], 'C05': ['C03', 'C10'],
  'C06': ['C08', 'C18'], 'C07': ['C06'], 'C08': ['C06'], 'C09': ['C03'], 'C10': ['C04', 'C12'], 'C11': [],
- 'C12': ['C10'], 'C13': ['C03', 'C16'], 'C14': ['C20'], 'C15': ['C02'], 'C16': [], 'C17': ['C05'], 'C18': ['C06', 'C14'],
+ 'C12': ['C10'], 'C13': ['C03', 'C16'], 'C14': ['C20'], 'C15': ['C02'], 'C16': [], 'C17': ['C05', 'C16'], 'C18': ['C06', 'C14'],
  'C19': [], 'C20': ['C14'],
 }
 
